@@ -97,7 +97,7 @@ def repo_functions(checks):
 
 def run_kani(prop, run, tier, idx, workdir):
     """one cargo-kani invocation; returns list of per-harness result dicts + meta"""
-    tdir = BUILD / ("%s-%s" % (prop, run.get("cfg", "nostd")))
+    tdir = BUILD / ("target-%s" % run.get("cfg", "nostd"))  # shared by all properties: dependencies are built once per configuration
     out_json = workdir / ("run%d.json" % idx)
     log = workdir / ("run%d.log" % idx)
     filters = run["filters"][tier]
@@ -148,7 +148,7 @@ PB_RE = re.compile(r"Concrete playback unit test for `([^`]+)`:\s*```\n(.*?)```"
 def make_replay(prop, run, h, workdir):
     """re-run one failed harness alone with concrete playback; write the replay file; run it natively.
     returns (replay_path or None, reproduced: bool|None, detail)"""
-    tdir = BUILD / ("%s-%s" % (prop, run.get("cfg", "nostd")))
+    tdir = BUILD / ("target-%s" % run.get("cfg", "nostd"))  # shared by all properties: dependencies are built once per configuration
     log = workdir / ("replay-%s.log" % harness_short(h))
     cmd = kani_cmd(run, [h], tdir, ["--exact", "-Z", "concrete-playback", "--concrete-playback=print"])
     # one process at a time here and concrete playback disables formula slicing: give it more memory than a parallel run gets
